@@ -279,6 +279,7 @@ func forwardVals(v ssa.Value) []ssa.Value {
 // change" rule; shared by C05 R3, C08 R2 and C20 R2.
 func checkPairing(w *core.World, r *core.Report, rule string, onlyPkgs ...string) {
 	n := 0
+	labels := roleLabels(w, r)
 	pairs := []struct {
 		mover, mname string
 		partner      []string
@@ -306,7 +307,7 @@ func checkPairing(w *core.World, r *core.Report, rule string, onlyPkgs ...string
 			for _, c := range core.CallsTo(fn, p.mover) {
 				n++
 				r.Touch(core.QName(fn))
-				key := fmt.Sprintf("%s: %s paired with %s", core.QName(fn), p.mname, p.pname)
+				key := fmt.Sprintf("%s: %s paired with %s", label(labels, fn), p.mname, p.pname)
 				partners := core.CallsTo(fn, p.partner...)
 				cutP := core.NewCut()
 				for _, q := range partners {
@@ -345,7 +346,7 @@ func checkPairing(w *core.World, r *core.Report, rule string, onlyPkgs ...string
 		if pk := core.PkgOf(fn); pk == "vm" || pk == "engine" {
 			for _, c := range core.CallsTo(fn, memReset, "cache.(*Cache).Reset") {
 				n++
-				key := fmt.Sprintf("%s: Memory.Reset without unwinding the stack", core.QName(fn))
+				key := fmt.Sprintf("%s: Memory.Reset without unwinding the stack", label(labels, fn))
 				// allowed only when the same function also unwinds the navigation stack (calls Rewind/Restart)
 				unwinds := len(core.CallsTo(fn, "vm.Rewind", "state.(*State).Restart")) > 0
 				r.Check(unwinds, rule, key, c.Pos(), "stack unwound in the same function", "all cache scopes but the first are dropped while the navigation stack keeps its depth")
